@@ -729,11 +729,13 @@ pub fn run(req: &RunRequest) -> Value {
             tables: vec![TableDef {
                 name: "tt".into(),
                 partitioner: None,
+                view_of: None,
             }],
         });
         cluster.keyspaces[0].tables.push(TableDef {
             name: "wide".into(),
             partitioner: None,
+            view_of: None,
         });
         cluster.catalog.push(StmtDef {
             shape: WIDE_Q.into(),
@@ -750,6 +752,7 @@ pub fn run(req: &RunRequest) -> Value {
         cluster.keyspaces[0].tables.push(TableDef {
             name: "extra".into(),
             partitioner: None,
+            view_of: None,
         });
         cluster.catalog.push(StmtDef {
             shape: EXTRA_Q.into(),
@@ -766,6 +769,7 @@ pub fn run(req: &RunRequest) -> Value {
         cluster.keyspaces[0].tables.push(TableDef {
             name: "vecs".into(),
             partitioner: None,
+            view_of: None,
         });
         cluster.catalog.push(StmtDef {
             shape: VEC_Q.into(),
@@ -797,6 +801,7 @@ pub fn run(req: &RunRequest) -> Value {
         cluster.keyspaces[0].tables.push(TableDef {
             name: "ck".into(),
             partitioner: None,
+            view_of: None,
         });
         cluster.catalog.push(StmtDef {
             shape: CK_Q.into(),
